@@ -21,21 +21,24 @@ CLAIMED = {
     "C01": C("model_checking",
              "Bounded symbolic model checking of compile_expression / compile_to_dict_function / CompiledExpression.value / the cached second compile / the deep-tree "
              "builder (threshold forced from outside) and evaluate(): for every recipe of the bounded family and every permutation / superset of its variables the real "
-             "code runs on a symbolic point and z3 proves the result equal to the reference formula for ALL points, constants and parameter values. Totality: every "
-             "Expression subclass found by introspection is reached.",
+             "code runs on a symbolic point and z3 proves the result equal to the reference formula for ALL points, constants and parameter values; callables built at "
+             "one parameter valuation and called after the parameters were updated must give the formula at the NEW values; a third of the family is repeated after "
+             "read-only queries (variable sets, repr, hash, Problem listing) on every node. Totality: every Expression subclass found by introspection is reached.",
              COMMON_NOTE, "DESIGN.md 2/C01"),
     "C02": C("model_checking",
              "gradient() of the real code is executed on every recipe of the bounded family (depth<=2/3, all 19 unary ops, all vector/matrix reductions) for every wrt "
-             "variable (incl. one that does not occur); z3 proves equality with a dual-number oracle for ALL points and ALL symbolic constants on every explored path.",
+             "variable (incl. one that does not occur); z3 proves equality with a dual-number oracle for ALL points and ALL symbolic constants on every explored path, "
+             "also when the parameters are updated after differentiation; one inductive step per rule with opaque children (T1).",
              COMMON_NOTE + "evaluate() is the observation of the derivative tree.", "DESIGN.md 2/C02", TECH + "; dual-number derivative oracle"),
     "C03": C("model_checking",
              "compile_jacobian, compile_gradient, CompiledExpression.gradient, compute_jacobian and every jacobian_row implementation are executed symbolically for expression "
-             "lists (m<=3) under every permutation / superset of the variables; z3 proves each entry equal to the dual-number derivative. The __name__ of the returned "
-             "closure is recorded as witness of the fast path taken.",
+             "lists (m<=3) under every permutation / superset of the variables; z3 proves each entry equal to the dual-number derivative, also for callables built "
+             "before the parameters were updated. The __name__ of the returned closure is recorded as witness of the fast path taken.",
              COMMON_NOTE, "DESIGN.md 2/C03", TECH + "; dual-number derivative oracle"),
     "C04": C("model_checking",
              "Soundness of every degree traversal (e.degree, compute_degree, recursive, iterative, bounded, is_linear, is_quadratic): a reported degree d is checked by a z3 "
-             "query for a point x and step h at which the order-(d+1) finite difference of the REFERENCE formula is non-zero (unsat = polynomial of degree <= d).",
+             "query for a point x and step h at which the order-(d+1) finite difference of the REFERENCE formula is non-zero (unsat = polynomial of degree <= d); "
+             "asked cold, with sub-expressions classified first (warm caches) and after read-only queries on every node and container.",
              COMMON_NOTE + "Sat answers may stem from uninterpreted functions and are therefore always replayed numerically.", "DESIGN.md 2/C04",
              TECH + "; finite-difference encoding of polynomial degree"),
     "C05": C("model_checking",
@@ -46,12 +49,14 @@ CLAIMED = {
     "C06": C("model_checking",
              "Problem.solve runs against nondeterministic solver stubs (arbitrary point, success flag and message; no feasibility promise); the explorer walks every branch of "
              "the post-solve check, the SLSQP->trust-constr retry and both status mappings; on every path ending OPTIMAL z3 proves every user constraint within the code's "
-             "stated tolerance and all declared bounds.",
+             "stated tolerance and all declared bounds; 28 models x 10 methods, plus the same obligations for the SECOND solve of a problem object edited in "
+             "between (6 edit histories).",
              COMMON_NOTE + "Trusts that SciPy honours the stub contracts S4/S5 (x within passed bounds; linprog success => passed constraints hold). Path budget per (model, method).",
              "DESIGN.md 2/C06", TECH + "; nondeterministic solver stubs"),
     "C07": C("model_checking",
              "Same exploration as C06 with fun tied to the passed callable / cost vector: on every path with values z3 proves objective_value == objective(values) in the "
-             "user's orientation incl. constants and parameters; keys(values) == problem variables; Solution[handle] retrieves the right positions for 24 vector / matrix view recipes.",
+             "user's orientation incl. constants and parameters; keys(values) == problem variables; Solution[handle] retrieves the right positions for 24 vector / matrix "
+             "view recipes; also for the second solve after an edit history (sense flipped with the same objective object, objective replaced, constraints added).",
              COMMON_NOTE + "Trusts result.fun == fun(result.x) (S4) and == c.x (S5).", "DESIGN.md 2/C07", TECH + "; nondeterministic solver stubs"),
     "C08": C("model_checking",
              "The optyx side of LP solving: for every linear model x orientation x LP method, z3 proves (symbolic data) that the instance handed to linprog has the user's "
@@ -62,12 +67,13 @@ CLAIMED = {
     "C09": C("model_checking",
              "The optyx side of NLP solving: what solve_scipy passes to scipy.optimize.minimize is recorded and z3 proves for all x and symbolic data: fun == +/-objective, "
              "jac == grad fun and hess == hess fun (fun itself differentiated with dual numbers through the callable), constraint dicts non-negative/zero exactly on the user's "
-             "relation with matching jac, bounds declared and passed iff supported, x0 inside bounds, method as requested; converged and feasible replies map to OPTIMAL.",
+             "relation with matching jac (and the right shapes), bounds declared and passed iff supported, x0 inside bounds, method as requested; converged and feasible "
+             "replies map to OPTIMAL; the same for the second solve of a problem that first had fewer variables / constraints / another objective.",
              COMMON_NOTE + "Convergence of SLSQP / trust-constr / L-BFGS-B (Fortran/C behind FFI) is outside the claim.", "DESIGN.md 2/C09", TECH + "; recording solver stub; dual numbers through the recorded callables"),
     "C10": C("model_checking",
              "Operand-kind x sense x shape grid (Python / NumPy scalars, 0-d arrays, variables, parameters, expressions, vectors, lists, arrays, matrices; reflected forms; .eq): "
              "z3 proves violation / is_satisfied / one-constraint-per-element semantics for a symbolic point and symbolic right-hand values, and that the SciPy dicts are "
-             "non-negative exactly on the relation with jac == grad fun; mismatched shapes must raise.",
+             "non-negative exactly on the relation with jac == grad fun, also on a second solve after the parameters were updated; mismatched shapes must raise.",
              COMMON_NOTE + "One known finding (0-d array on the left of a comparison) is listed in known_findings.json.", "DESIGN.md 2/C10"),
     "C11": C("model_checking",
              "Every vector / matrix construction recipe (views, slices with steps and negative indices, transposes, symmetric sharing, elementwise operators with scalar / "
@@ -82,23 +88,24 @@ CLAIMED = {
     "C13": C("model_checking",
              "Exhaustive histories (length <= 4 / 5) over minimize / maximize / subject_to (single and list) / bound assignment with symbolic values / solve (LP and NLP "
              "methods) / read: after every solve and read z3 proves the recorded solver arguments equal to those of a fresh Problem built from the current state, and "
-             "variables, linearity verdict and get_bounds() are compared.",
+             "variables, linearity verdict and get_bounds() are compared; every recorded call is additionally checked against the REFERENCE formulas of the current "
+             "state (not only against a fresh optyx problem).",
              COMMON_NOTE + "Reference = a fresh Problem over the same expression and variable objects.", "DESIGN.md 2/C13", TECH + "; history enumeration"),
     "C14": C("model_checking",
              "Process-wide caches are discovered at run time; for 10 target models and every prefix of <= 2 / 3 name-colliding pool models (each compiled, differentiated, "
              "classified, solved) z3 proves all observations on the target equal to those after cache_clear() of every cache, for all points and the values of every model; "
-             "cache overflow is driven concretely.",
+             "cache overflow is driven concretely; prefixes of length <= 1 / 2 are repeated with the deep-tree builders forced.",
              COMMON_NOTE + "cache_clear() of all discovered caches is taken as equivalent to a fresh process.", "DESIGN.md 2/C14", TECH + "; history enumeration"),
     "C15": C("model_checking",
              "Both algorithms on every tree: the four _RECURSION_THRESHOLD attributes are set from outside to 0, huge and 1..6; for chains of 2..6 terms (all 19 unary "
              "functions, 13 vector/matrix node kinds, parameters) over + - * / and **, left-deep / right-deep / balanced, z3 proves variables, degree, gradient, compiled "
-             "value and compiled gradient equal to the reference; genuinely deep chains (450 / 900 symbolic; 5000 / 20000 for gradient, degree, variables) run at the real "
+             "value and compiled gradient equal to the reference (degree also with sub-expressions classified first); genuinely deep chains (450 / 900 symbolic; 5000 / 20000 for gradient, degree, variables) run at the real "
              "threshold with the default recursion limit.",
              COMMON_NOTE, "DESIGN.md 2/C15"),
     "C16": C("model_checking",
              "Exhaustive case split over objective forms (every shortcut arm) x constraint forms, digit boundaries 9->10 and 99->100, tied names, 4 hash seeds: the variable "
              "list must equal the names flowing into the reference formula (name-set run), in independently computed natural order, unique; z3 proves get_bounds() equal to "
-             "the declared symbolic bounds and decides dependence queries for any unlisted variable.",
+             "the declared symbolic bounds and decides dependence queries for any unlisted variable; containers whose base names carry digits and views whose names collide are included.",
              COMMON_NOTE + "The set / order part has no real-valued inputs; the solver's contribution there is limited to bounds and dependence queries.", "DESIGN.md 2/C16",
              TECH + "; exhaustive explorer enumeration"),
     "C17": C("model_checking",
@@ -108,7 +115,7 @@ CLAIMED = {
     "C18": C("model_checking",
              "Finite product fully enumerated: 14 declaration routes x {integer, binary} x LP/NLP x 8 methods x strict: strict raises IntegerVariableError listing exactly the "
              "non-continuous variables with zero solver invocations; otherwise one warning naming exactly them and z3 proves the recorded solver arguments equal to the same "
-             "model with domains set to continuous; binaries carry [0,1] for symbolic declared bounds.",
+             "model with domains set to continuous; binaries carry [0,1] for symbolic declared bounds; the same when the solve is not the first solve of the problem object.",
              COMMON_NOTE, "DESIGN.md 2/C18", TECH + "; exhaustive explorer enumeration"),
     "C19": C("model_checking",
              "Every derivative closure family is executed over XReal (extended reals with IEEE/NumPy special-value rules as z3 If-terms, validated against NumPy on every run) "
